@@ -14,12 +14,12 @@ const hdrLen = 48
 
 type frameSpec struct {
 	Sub     uint32 `json:"sub"`
-	Len     uint32 `json:"len"` // length ANNOUNCED in the header
-	TS      int64  `json:"ts"`
-	ID      string `json:"id"`  // 16 bytes hex
-	Org     string `json:"org"` // 16 bytes hex
+	Len     uint32 `json:"len"`       // length ANNOUNCED in the header
+	TS      int64  `json:"ts,string"` // 64-bit values travel as strings: JSON numbers lose precision
+	ID      string `json:"id"`        // 16 bytes hex
+	Org     string `json:"org"`       // 16 bytes hex
 	PayLen  int    `json:"paylen"`
-	PaySeed uint64 `json:"payseed"` // payload bytes actually present = fill(PaySeed, PayLen)
+	PaySeed uint64 `json:"payseed,string"` // payload bytes actually present = fill(PaySeed, PayLen)
 }
 
 // streamCase: Frames (encoded one after the other) followed by Raw, cut at Trunc (if >= 0),
@@ -31,7 +31,7 @@ type streamCase struct {
 	Raw     string      `json:"raw,omitempty"` // hex
 	Trunc   int         `json:"trunc"`         // -1: none
 	Reader  int         `json:"reader"`        // see readerModes
-	RSeed   uint64      `json:"rseed"`
+	RSeed   uint64      `json:"rseed,string"`
 	ViaReal bool        `json:"viareal"` // frames are produced by the real WriteMsg (round trip) instead of the independent encoder
 }
 
